@@ -224,32 +224,18 @@ func ruleEMP3(p *Program) *RuleResult {
 					hi = i + 1 // the table admits fewer arguments than the implementation (C16): test the implementation's own arity
 				}
 				for n := i + 1; n <= hi && n <= 4; n++ {
-					calls := argEvaluateCalls(fn, i)
 					key := fmt.Sprintf("%s[%s]|arg %d of %d", tname, e.Name, i, n)
 					desc := fmt.Sprintf("x.%s(…) with argument %d of %d empty, via %s", e.Name, i, n, e.ImplName)
-					if len(calls) == 0 {
-						if n == i+1 {
-							r.undecided(key, desc, p.pos(fn.Pos()), "no Evaluate call on args["+fmt.Sprint(i)+"] found")
-						}
-						continue
-					}
 					r.count("hypotheses", 1)
 					an := newAnalyzer()
 					an.maxBlocks = 300
-					for _, c := range calls {
-						an.pin[c] = okTuple(coll())
-					}
-					res := an.analyze(fn, []aval{nonnil("ctx"), aval{k: kSlice, n: 1}, sliceLen(n)})
+					oe := newOperandEnv()
+					oe.results[fmt.Sprintf("args[%d]", i)] = okTuple(coll())
+					an.callModel = oe.model()
+					res := an.analyze(fn, []aval{nonnil("ctx"), aval{k: kSlice, n: 1}, argsValue(n)})
 					if res.nonconverged {
 						r.undecided(key, desc, p.pos(fn.Pos()), "analysis did not converge")
 						continue
-					}
-					// is the argument evaluated at all under this arity?
-					evaluated := false
-					for _, c := range calls {
-						if c.Parent() != fn || res.executable(c) {
-							evaluated = true
-						}
 					}
 					var problems []string
 					nret := 0
@@ -268,9 +254,10 @@ func ruleEMP3(p *Program) *RuleResult {
 					if nret == 0 {
 						continue // arity not accepted by the implementation
 					}
-					_ = evaluated
 					if len(problems) == 0 {
 						r.ok(key, desc+" → empty or error", p.pos(fn.Pos()), "SCCP with the argument's evaluation pinned to the empty collection and a one-item input: no executable return carries a value", true)
+					} else if oe.untagged > 0 {
+						r.undecided(key, desc, p.pos(fn.Pos()), "the arguments are evaluated through a loop or another indirection the operand tags do not survive: "+strings.Join(problems, "; "))
 					} else {
 						r.bad(key, desc, p.pos(fn.Pos()), strings.Join(problems, "; "))
 					}
@@ -308,19 +295,32 @@ func ruleEMP2(p *Program) *RuleResult {
 		if err != nil {
 			return r.anchorFail(err)
 		}
-		calls := map[string]*ssa.Call{}
-		for _, ec := range evaluateCalls(fn) {
-			calls[strings.TrimPrefix(ec.recv, "field:")] = ec.call
-		}
-		missing := false
-		for _, f := range node.operands {
-			if calls[f] == nil {
-				missing = true
+		runNode := func(results map[string]aval) (*result, *operandEnv) {
+			an := newAnalyzer()
+			an.maxBlocks = 200
+			oe := newOperandEnv()
+			for f, v := range results {
+				oe.results["field:"+f] = v
 			}
+			an.callModel = oe.model()
+			return an.analyze(fn, []aval{nodeReceiver(fn, nil), nonnil("ctx"), top}), oe
 		}
-		if missing {
-			r.undecided(node.typ+"|shape", "operand Evaluate calls not found", p.pos(fn.Pos()), "unsupported shape")
-			continue
+		{
+			probe := map[string]aval{}
+			for _, f := range node.operands {
+				probe[f] = okTuple(sliceLen(1))
+			}
+			_, oe := runNode(probe)
+			missing := false
+			for _, f := range node.operands {
+				if !oe.evaluated["field:"+f] {
+					missing = true
+				}
+			}
+			if missing {
+				r.undecided(node.typ+"|shape", "the operands are not all evaluated on singleton operands", p.pos(fn.Pos()), "unsupported shape")
+				continue
+			}
 		}
 		for _, emptyOp := range node.operands {
 			// the other operand: unknown singleton / unknown collection
@@ -329,23 +329,22 @@ func ruleEMP2(p *Program) *RuleResult {
 					continue
 				}
 				r.count("hypotheses", 1)
-				an := newAnalyzer()
-				an.maxBlocks = 200
+				results := map[string]aval{}
 				for _, f := range node.operands {
 					if f == emptyOp {
-						an.pin[calls[f]] = okTuple(coll())
+						results[f] = okTuple(coll())
 					} else {
 						switch other {
 						case "singleton":
-							an.pin[calls[f]] = okTuple(sliceLen(1))
+							results[f] = okTuple(sliceLen(1))
 						case "empty":
-							an.pin[calls[f]] = okTuple(coll())
+							results[f] = okTuple(coll())
 						default:
-							an.pin[calls[f]] = okTuple(top)
+							results[f] = okTuple(top)
 						}
 					}
 				}
-				res := an.analyze(fn, []aval{nonnil("e"), nonnil("ctx"), top})
+				res, _ := runNode(results)
 				key := fmt.Sprintf("%s|%s empty|other=%s", node.typ, emptyOp, other)
 				desc := fmt.Sprintf("%s with %s = {} (other operand %s)", node.typ, emptyOp, other)
 				var problems []string
@@ -373,12 +372,16 @@ func ruleEMP2(p *Program) *RuleResult {
 	if err != nil {
 		return r.anchorFail(err)
 	}
-	calls := map[string]*ssa.Call{}
-	for _, ec := range evaluateCalls(concat) {
-		calls[strings.TrimPrefix(ec.recv, "field:")] = ec.call
+	runConcat := func(l, rr aval) (*result, *operandEnv) {
+		an := newAnalyzer()
+		an.maxBlocks = 200
+		oe := newOperandEnv()
+		oe.results["field:Left"], oe.results["field:Right"] = l, rr
+		an.callModel = oe.model()
+		return an.analyze(concat, []aval{nodeReceiver(concat, nil), nonnil("ctx"), top}), oe
 	}
-	if calls["Left"] == nil || calls["Right"] == nil {
-		r.undecided("ConcatExpression|shape", "operand Evaluate calls not found", p.pos(concat.Pos()), "unsupported shape")
+	if _, oe := runConcat(okTuple(coll(st.strItem("x"))), okTuple(coll(st.strItem("x")))); !oe.evaluated["field:Left"] || !oe.evaluated["field:Right"] {
+		r.undecided("ConcatExpression|shape", "the operands are not both evaluated", p.pos(concat.Pos()), "unsupported shape")
 	} else {
 		type tc struct{ l, r aval; want string }
 		x := coll(st.strItem("x"))
@@ -389,11 +392,7 @@ func ruleEMP2(p *Program) *RuleResult {
 			"none empty":  {x, x, "xx"},
 		} {
 			r.count("hypotheses", 1)
-			an := newAnalyzer()
-			an.maxBlocks = 200
-			an.pin[calls["Left"]] = okTuple(c.l)
-			an.pin[calls["Right"]] = okTuple(c.r)
-			res := an.analyze(concat, []aval{nonnil("e"), nonnil("ctx"), top})
+			res, _ := runConcat(okTuple(c.l), okTuple(c.r))
 			got := "?"
 			if len(res.rets) == 1 && len(res.hazards) == 0 && retIsOK(res.rets[0]) {
 				v := res.rets[0].vals[0]
